@@ -33,6 +33,9 @@ func NewTimerRegistry(store *TimerStore, srIDs []string) *TimerRegistry {
 	return &TimerRegistry{
 		upstreams: upstreams,
 		store:     store,
+		// Until every upstream has reported, the operator's watermark is the
+		// epoch each unreported upstream counts as - not Go's zero time.
+		watermark: time.Unix(0, 0),
 	}
 }
 
